@@ -324,4 +324,6 @@ def run(chk):
     n = 480 if tier == 'quick' else 8000
     per = max(1, n // (core.NPROC * (1 if tier == 'quick' else 8)))
     wide = [(chk.seed * 1000 + i, pid, per) for i in range(n // per)]
-    return core.stream(SMALL[pid], [(row, pid, tier, i) for i, row in enumerate(rows)], WIDE[pid], wide, tier, step=120)
+    from .. import suite
+    extra = suite.suite_rows(pid, chk) if (tier == 'thorough' and pid in ('C07', 'C08')) else None
+    return core.stream(SMALL[pid], [(row, pid, tier, i) for i, row in enumerate(rows)], WIDE[pid], wide, tier, step=120, extra=extra)
